@@ -14,7 +14,7 @@ LEVEL_TEXT = ("TLA+ reference definitions written from the statement (maximal de
               "and recorded random executions are validated against the trace specification")
 LEVEL_NOTE = ("exhaustive over: all strings of length <= 7 (quick 6) over {a, b, delimiter(s)} for split (both forms) and tokenize, all pairs "
               "of strings of length <= 5 (quick 4) over {a, b} for prefixes, all URLs from <= 3 (quick 2) parameters over 3 types x 3 file "
-              "names x 2 names x 3 values, all paths of length <= 7 (quick 6) over {a, '.', '/'}, all argument vectors of length <= 5 "
+              "names x 2 names x 3 values, all paths of length <= 7 (quick 6) over {a, '.', '/'}, all constructor arguments of length <= 5 over {a, '.', '/', '\\\\'} for both constructors, all argument vectors of length <= 5 "
               "(quick 4) over 3 symbols with all 64 parsers, 13 mantissas x every decade 1e-15..1e21 x both signs and +/-0 for prettyDouble, 241 counts from 0 to SIZE_MAX (incl. 2^k +- 1 for k = 7..16, 24, 31, 32, 53, 63) for prettyNumber; beyond these only boundary "
               "families (block-defined strings, tokens, path components and common prefixes of 15..17 / 255..257 / 4095..4097 / 65535..65537 "
               "characters, that many tokens / URL parameters, argument vectors and removal counts around 256 / 1024 / 4096 / 65536, every byte value "
@@ -22,7 +22,7 @@ LEVEL_NOTE = ("exhaustive over: all strings of length <= 7 (quick 6) over {a, b,
               "sampling.  Not covered (not in the statement): split(keepDelim=true), lowerCase/upperCase, FileName::operator-/canonical, "
               "whether operator+ keeps or collapses a separator run at the joint (judged up to collapsing), a const char* right operand of operator+ "
               "(ambiguous between the two overloads, does not compile), magnitudes outside 1e-15..1e21, NaN / infinity, subnormal / huge doubles, strings of 2^31 characters and more, "
-              "backslash as a separator alias, Windows separators.  Trusted: TLC, the "
+              "Windows as the native separator.  Trusted: TLC, the "
               "driver's projection of printed text to (decimals, mantissa, suffix), strtod for m*10^e, g++/libstdc++")
 TECHNIQUE = ("TLA+ functional specifications with laws checked by TLC (ASSUME over bounded domains) + exhaustive case replay on the real "
              "code; TLC validation of recorded observations against law predicates; ADT specification with state-graph histories and "
@@ -215,7 +215,7 @@ def random_lines(rnd, n):
         u = (t + "://" if t else "") + f + "".join(":" + p_[0] + "=" + p_[1] for p_ in ps)
         lines.append({"a": "UrlParse", "arg": {"t": t, "f": f, "ps": ps, "u": u, "q": sorted(set(names)) + ["zz"]}})
         # file names
-        s = rand_str(rnd, "aab../", 0, 16) + rnd.choice(["", "", "/", "//"])
+        s = rand_str(rnd, "aab../" + ("\\\\" if rnd.random() < 0.4 else ""), 0, 16) + rnd.choice(["", "", "/", "//", "\\", "\\/", "/\\"])
         op = rnd.choice(["FnSplit", "FnNameExt", "FnDropExt", "FnSetExt", "FnAddExt", "FnPlus", "FnPlus", "FnRecompose"])
         if op == "FnPlus" and rnd.random() < 0.35:
             s = rnd.choice(["", "", "/", "//"])          # empty left operand: "", separators only
@@ -302,6 +302,7 @@ def run(chk, replay=None):
         ("StringsGen", "StringsGen%s.cfg" % sfx, "RunLaws / PrefixLaws on every string, then one case per input"),
         ("PseudoUrlGen", "PseudoUrlGen%s.cfg" % sfx, "Parse(Assemble(parts)) = parts, last duplicate wins"),
         ("FileNamesGen", "FileNamesGen%s.cfg" % sfx, "FileLaws on every path, component-list reading = last-separator reading"),
+        ("FileCtorGen", "FileCtorGen.cfg", "Normalise: '\\\\' and '/' become the separator, trailing ones dropped except the root; both constructors"),
         ("SiPrintGen", "SiPrintGen.cfg", "SiLaws: the admissibility law is satisfiable and selective for every input"),
         ("BigStringsGen", "BigStringsGen%s.cfg" % sfx, "block algebra = character-level definitions on all small block lists; long strings / many tokens"),
         ("ByteSweepGen", "ByteSweepGen%s.cfg" % sfx, "every byte value first and last in every field (placeholder X)"),
@@ -329,6 +330,11 @@ def run(chk, replay=None):
         "split_default_vs_explicit_keepDelim": sum(1 for c in all_cases if "tokens_explicit" in c["exp"]),
         "filename_eq_ne_stream": sum(1 for c in all_cases if "eq_self" in c["exp"]),
     }
+    # construction: names with a trailing / inner backslash and the root in both spellings, for BOTH constructors
+    # (an FnSplit case constrains str = std::string constructor and str_c = const char* constructor)
+    for k in ("trail-bslash", "inner-bslash", "root-bslash", "root-slash", "trail-slash"):
+        for field, ctor in (("str", "string"), ("str_c", "cstr")):
+            bguard["ctor_%s_%s" % (ctor, k)] = sum(1 for c in all_cases if c.get("cls") == "ctor=" + k and c["a"] == "FnSplit" and field in c["exp"])
     chk.cov["boundary_guards"] = bguard
     if not all(bguard.values()):
         raise tla.InfraError("vacuity guard: boundary case families missing: %s" % {k: v for k, v in bguard.items() if not v})
